@@ -24,13 +24,13 @@ class TraceVerdict:
         self.detail = ""
 
 
-def validate(module, executions, reset=None, cfg=None, mem="6g", timeout=1200, env=None, dfs=False):
+def validate(module, executions, reset=None, cfg=None, mem="6g", timeout=1200, env=None, dfs=False, resets=None):
     """executions: list of lists of JSON-able event dicts.  Returns TraceVerdict."""
     reset = reset or {"a": "RESET"}
     flat = []
     owner = []
     for xi, ex in enumerate(executions):
-        flat.append(reset)
+        flat.append(resets[xi] if resets else reset)
         owner.append((xi, -1))
         for ei, e in enumerate(ex):
             flat.append(e)
